@@ -18,6 +18,9 @@ Monitors
                 read by an independent decoder (vf/ref/http1.py, h2 library peers, vf/ref/c11_wire.py)
   kill.nothing  nothing of the flow is forwarded after the kill (proxy-made error signals -- close, RST_STREAM,
                 SERVFAIL -- are not forwarding)
+  kill.torn_down once the layer saw any further connection event after the kill (data, control frame, peer half-close or
+                disconnect) it has closed both sides itself; WebSocket: after the kill no ping/pong and no peer's close
+                (code + reason) is relayed either, and the flow does not end with the peer's close code
   kill.error    a killed flow has flow.error set and its protocol's error hook fired after the kill (HTTP: `error`,
                 unless the `response` hook had fired, which excludes `error`; WebSocket: `websocket_end` or `error`)
 """
@@ -38,12 +41,14 @@ LEVEL = "exploration"
 ENGINE = "sansio"
 BUDGET = {"quick": (500, 14), "thorough": (40000, 230)}
 WORKERS = {"quick": 4, "thorough": 16}
-REQUIRED = ["frozen", "handoff", "progress", "once", "kill.nothing", "kill.error", "held_with_events"]
+REQUIRED = ["frozen", "handoff", "progress", "once", "kill.nothing", "kill.error", "kill.torn_down", "held_with_events"]
 TECHNIQUE = "runtime monitoring: sans-io schedule exploration with withheld hook completions; per-step frozen-destination monitor + independent wire decoders"
 RULE = (
     "case = (protocol in h1/h2/ws/tcp/udp/dns, generated messages with unique tags, intercept filter for the real Intercept addon, "
     "per-hook action in pass/intercept/kill, user action in resume/edit+resume/kill/edit+kill after a random number of steps or at "
-    "quiescence, optional transit kill, random segmentation + schedule); signature = (protocol, sorted (hook, action) pairs, "
+    "quiescence, optional kill of an idle flow (in the start hook, between two events, or at quiescence) FOLLOWED by peer activity that is "
+    "not a data message -- WebSocket ping / pong / close with code+reason, TCP half-close, disconnect of either side, DNS retransmission, "
+    "HTTP/2 PING / client RST_STREAM --, random segmentation + schedule); signature = (protocol, sorted (hook, action) pairs, "
     "feature flags); non-trivial iff a hook was actually held while a further connection event was delivered, or a flow was killed"
 )
 ASSUMPTIONS = [
@@ -422,15 +427,20 @@ def run_stream_case(ctx, opts, loop, proto):
     def edit(rec):
         rec["msg"].content = b"<" + rec["tag"] + b":EDITED" + bytes(r.choice(b"XYZ") for _ in range(r.randint(0, 9))) + b">"
 
-    S = Session(ctx, r, loop, proto, describe, edit, transit=0.15)
+    S = Session(ctx, r, loop, proto, describe, edit, transit=0.25)
+    S.start_kill = {("udp_start" if udp else "tcp_start"): 0.04}
+    # trailing peer activity (half-close / disconnect from either side) waits for the planned idle kill, if there is one
+    tail_gate = S.after_kill_or_unplanned
+    ends = r.choice([(), (), ("client",), ("server",), ("client", "server")])
 
     def server_factory(drv, conn):
         segs = []
         for k, (tag, data) in enumerate(sm):
             need = r.choice([0, 0, 1, 30])
             segs.append((data, (lambda d, need=need: len(d.out[conn]) >= need)))
-        if not udp and r.random() < 0.3:
-            segs.append((sansio.EOF, lambda d: len(d.out[conn]) >= 1))
+        if not udp and "server" in ends:
+            need = r.choice([0, 1])
+            segs.append((sansio.EOF, lambda d: len(d.out[conn]) >= need and tail_gate(d)))
         return sansio.ScriptPeer(segs)
 
     d = sansio.Driver(
@@ -440,8 +450,8 @@ def run_stream_case(ctx, opts, loop, proto):
     )
     d.context.server = mconn.Server(address=("example.com", 7), transport_protocol=proto)
     segs = [data for _, data in cm]
-    if r.random() < 0.3:
-        segs.append(sansio.EOF)
+    if "client" in ends:
+        segs.append((sansio.EOF, tail_gate))
     d.attach_client_peer(sansio.ScriptPeer(segs))
     S.drive(d)
     return finish_stream_case(ctx, S, d, proto, sent, msg_hook)
@@ -488,6 +498,7 @@ def finish_stream_case(ctx, S, d, proto, sent, msg_hook):
         if later:
             S.violate("forwarded-after-kill", {**witness, "killed_at": k["hook"], "how": k["how"], "sent_after_kill": later[:6]}, classify(proto, "kill.nothing", k))
         S.check_kill_error(d, k, ("udp_error",) if udp else ("tcp_error",), ended_before=("udp_end",) if udp else ("tcp_end",))
+        S.check_torn_down(d, k, [d.client, server], end_hooks=("udp_end",) if udp else ("tcp_end",))
     feats = ("eof" if any(e[2].startswith("ConnectionClosed") for e in d.log if e[0] == "ev") else "open",)
     return S, d, feats, witness
 
@@ -559,7 +570,7 @@ def run_dns_case(ctx, opts, loop, proto):
         else:
             f.response.answers[0].data = bytes([127, 0, 0, r.randint(1, 250)])
 
-    S = Session(ctx, r, loop, "dns", describe, edit, transit=0.15)
+    S = Session(ctx, r, loop, "dns", describe, edit, transit=0.25)
     S.kill_state = lambda d, f, where: {"request_forwarded": count_to(d, d.context.server, f.request.id) > 0, "has_response": f.response is not None}
     origin = DnsOrigin(silent, addr_of)
     d = RecDriver(
@@ -570,6 +581,9 @@ def run_dns_case(ctx, opts, loop, proto):
     segs = [wire.dns_query(qid, name) for qid, tag, name in queries]
     if r.random() < 0.15:
         segs.append(segs[0])  # retransmission of the first query (same id -> same flow, queried again)
+    if S.transit_planned and r.random() < 0.5:
+        # the client re-asks (any of its queries) after the planned idle kill: a killed flow must not be revived by it
+        segs.append((r.choice(segs[:n]), S.after_kill_or_unplanned))
     d.attach_client_peer(sansio.ScriptPeer(segs))
     S.drive(d)
 
@@ -822,6 +836,14 @@ def run_h2_case(ctx, opts, loop, proto):
         k = r.choice([k for k in range(n) if idx[k] < len(per_stream[k])])
         actions.append(per_stream[k][idx[k]])
         idx[k] += 1
+        if r.random() < 0.15:
+            actions.append(("ping",))  # connection-level frames between / after the streams' frames (also after a kill)
+    client_reset = None
+    if r.random() < 0.15:
+        # the client cancels one of its (completely sent) requests later on -- possibly after that flow was killed
+        client_reset = r.choice(list(streams))
+        last = max(i for i, a in enumerate(actions) if len(a) > 1 and a[1] == client_reset)
+        actions.insert(r.randint(last + 1, len(actions)), ("rst", client_reset, 8))
 
     origins = []
 
@@ -891,7 +913,7 @@ def run_h2_case(ctx, opts, loop, proto):
         held_tags = {h["rec"]["tag"] for h in held}
         killed_tags = {http_tag(k["flow"]) for k in S.kills}
         for tag in streams:
-            if tag in held_tags or tag in killed_tags:
+            if tag in held_tags or tag in killed_tags or tag == client_reset:
                 continue
             ctx.count("progress")
             x = cpeer.by_key.get(tag)
@@ -927,7 +949,7 @@ def run_h2_case(ctx, opts, loop, proto):
             continue
         by_hook = {x["hook"]: x for x in recs}
         complete = id(f) not in killed and f.error is None and all(h in by_hook and by_hook[h]["decision"] in ok_dec for h in HTTP_HOOKS)
-        if not complete:
+        if not complete or tag == client_reset:  # (a request the client itself cancelled is owed no delivery; only "at most once" above)
             continue
         if len(ups) != 1 or not ups[0]["ended"] or down is None or down["headers"] is None or not down["ended"]:
             S.violate("resumed-message-not-delivered", {**witness, "tag": tag, "upstream": [u["events"] for u in ups], "client_saw": down and down["events"]})
@@ -951,7 +973,7 @@ def run_h2_case(ctx, opts, loop, proto):
         if now["to_server"] != st["to_server"] or now["to_client"] != st["to_client"]:
             S.violate("forwarded-after-kill", {**witness, "tag": tag, "killed_at": k["hook"], "how": k["how"], "at_kill": {"to_server": st["to_server"], "to_client": st["to_client"]}, "at_end": now, "state": {a: b for a, b in st.items() if a not in ("to_server", "to_client")}}, classify("h2", "kill.nothing", k))
         S.check_kill_error(d, k, ("error",), excused_by=("response",))
-    feats = (n, "rs" if any(x.get("streamed") and x["side"] == "server" for x in S.records) else "", "ps" if any(x.get("streamed") and x["side"] == "client" for x in S.records) else "", len(origins))
+    feats = (n, "rs" if any(x.get("streamed") and x["side"] == "server" for x in S.records) else "", "ps" if any(x.get("streamed") and x["side"] == "client" for x in S.records) else "", len(origins), "crst" if client_reset else "")
     return S, d, feats, witness
 
 
